@@ -639,8 +639,8 @@ func main() {
 		"unadvertised:unary-request", "unadvertised:stream-request", "unadvertised:exchange-input",
 		"threshold-0:via-shm:unary", "threshold-0:via-shm:producer", "threshold-0:via-shm:exchange")
 
-	nDiff := r.N(300, 20000)
-	nNeg := r.N(60, 3000)
+	nDiff := r.N(300, 10000)
+	nNeg := r.N(60, 1500)
 	workers := r.N(4, 12)
 	tot := &totals{}
 	var wg sync.WaitGroup
@@ -665,7 +665,7 @@ func main() {
 	wg.Wait()
 	// Same histories' successors with every non-empty batch eligible for shm (threshold 0),
 	// in child processes because the library reads the variable once.
-	runOtherThreshold(r, "0", nDiff, nDiff+r.N(90, 3000), r.N(3, 12))
+	runOtherThreshold(r, "0", nDiff, nDiff+r.N(90, 2000), r.N(3, 12))
 	r.Count("client.requests_via_pointer", tot.st.reqViaShm)
 	r.Count("client.requests_inline", tot.st.reqInline)
 	r.Count("client.exchange_inputs_via_pointer", tot.st.inViaShm)
